@@ -904,8 +904,9 @@ class Manager:
 
             self.fire(exception(*err, handler=None, fevent=event))
 
-            # the failed generator is finished, too
-            event.waitingHandlers -= 1
+            # the failed generator is finished, too; when it failed while
+            # being resumed from a call/wait (parent set), so is that call
+            event.waitingHandlers -= 2 if parent else 1
             self._eventDone(event, err)
 
     def tick(self, timeout=-1):
